@@ -381,6 +381,8 @@ def ref_open_tx_pipe(self, address):
         for k in range(5):
             hw.addr0[k] = ite(k < n, p[k], hw.addr0[k])
             self._pipes[0][k] = hw.addr0[k]
+        hw.reg[2] = hw.reg[2] | 1     # ... and must be open to receive it (C08)
+        self._open_pipes = hw.reg[2]
     for k in range(5):
         hw.txaddr[k] = ite(k < n, p[k], hw.txaddr[k])
         self._tx_address[k] = hw.txaddr[k]
